@@ -410,6 +410,8 @@ func TestC12(t *testing.T) {
 		fixed = append(fixed,
 			C12Case{Argv: []string{"text", "conv", "degree"}, Input: tacet + "1[2] 5_7/7[2] 6m[4]{txt=verse}\n", HasInput: true},
 			C12Case{Argv: []string{"text", "conv", "syllable", "--key", "Eb"}, Input: tacet + strings.Repeat("Eb[1] Bb_7/D[1] Cm[2] ", pick(1500, 15000)) + "\n", HasInput: true},
+			// a long piece that modulates twice: how a note name is read depends on everything before it
+			C12Case{Argv: []string{"text", "conv", "syllable", "--key", "Eb"}, Input: strings.Repeat("Eb[1] Bb_7/D[1] Cm[2] ", pick(300, 3000)) + "Ab[1]{key=Ab} " + strings.Repeat("Ab[1] Eb_7/G[1] Fm[2] ", pick(300, 3000)) + "R[1]{key=F#m} " + strings.Repeat("F#m[1] C#_7/E#[1] D[2] ", pick(300, 3000)) + "\n", HasInput: true},
 		)
 		for i, c := range fixed {
 			if !myShare(i) {
